@@ -115,6 +115,14 @@ func (ex *Exec) callModular(callee *ssa.Function, cfc *FuncContract, args []Valu
 		t := ctx.evalBool(d.Text)
 		ex.vc.Oblige(ex.obName("call", tag+"/pre/"+d.Label), "pre", Implies(pc, t))
 	}
+	// a callee working on the pool item needs it to be owned for the duration of the call
+	if ex.top.poolItem != nil && st.owned != nil {
+		for _, a := range args {
+			if sl, ok := a.(*SliceV); ok && sl.Base == ex.top.poolItem {
+				ex.vc.Oblige(ex.obName("pool", "item_passed_only_while_owned"), "frame", Implies(pc, st.owned))
+			}
+		}
+	}
 	// havoc modifies
 	for _, d := range cfc.Of("modifies") {
 		for _, name := range strings.Fields(d.Text) {
